@@ -1,6 +1,6 @@
 use crate::{
     draw_target::DrawTarget, geometry::Dimensions, iterator::contiguous::Cropped,
-    primitives::Rectangle, transform::Transform, Pixel,
+    primitives::Rectangle, Pixel,
 };
 
 /// Clipped draw target.
@@ -56,7 +56,7 @@ where
         if &intersection == area {
             self.parent.fill_contiguous(area, colors)
         } else {
-            let crop_area = intersection.translate(-area.top_left);
+            let crop_area = Rectangle::new(intersection.top_left - area.top_left, intersection.size);
             let cropped = Cropped::new(colors.into_iter(), area.size, &crop_area);
             self.parent.fill_contiguous(&intersection, cropped)
         }
